@@ -71,6 +71,10 @@ def _apply(vm, name, k, m):
         with vm.mask_params({"m": 0.5}):
             vm.read("m")
         return set()
+    if name == "fix_unfix_t2":
+        vm.set_fix("t2"); vm.set_fix("t2", unfix=True); vm.user_fixed = set(getattr(vm, "user_fixed", set())) - {"t2"}; return set()
+    if name == "fix_t2":
+        vm.set_fix("t2"); vm.user_fixed = set(getattr(vm, "user_fixed", set())) | {"t2"}; return set()
     raise ValueError(name)
 
 
@@ -116,6 +120,9 @@ def replay(p):
                 tv = vm.trainable_vars
                 if vm.variables["t1"] is not vm.variables["t2"] or len(set(tv)) != len(tv) or sum(1 for n in tv if n in ("t1", "t2")) > 1 or "f" in tv:
                     bad.append("free list broken at %s" % nm)
+                for fx in getattr(vm, "user_fixed", set()):
+                    if any(vm.variables[n] is vm.variables[fx] for n in tv):
+                        bad.append("%s was fixed but is still varied through %s at %s" % (fx, [n for n in tv if vm.variables[n] is vm.variables[fx]], nm))
                 if nm in ("std_polar", "standard_complex", "trans_polar") and vm.complex_vars["c"] and after["cr"] < 0:
                     bad.append("negative radius after %s" % nm)
             return {"reproduced": bool(bad), "bad": bad}
